@@ -539,13 +539,22 @@ func (c *Ctx) c14Siblings() {
 				if !ok || !strings.HasSuffix(calleeFull(&cl.Call), "go-retryablehttp.LinearJitterBackoff") {
 					return
 				}
+				// a test of representability from one side of which the delegation cannot be reached (the other conditions of
+				// the guard — a bound that is not positive — may legitimately by-pass the test)
 				for _, b := range f.Blocks {
 					ifi, isIf := b.Instrs[len(b.Instrs)-1].(*ssa.If)
-					if !isIf || !(edgeDominates(b, 0, cl.Block()) || edgeDominates(b, 1, cl.Block())) {
+					if !isIf || !c14RepresentabilityTest(ifi.Cond, f.Params[3], 0) {
 						continue
 					}
-					if c14RepresentabilityTest(ifi.Cond, f.Params[3], 0) {
-						guarded = true
+					for _, succ := range b.Succs {
+						if len(succ.Instrs) == 0 {
+							continue
+						}
+						isCall := func(i ssa.Instruction) bool { return i == ssa.Instruction(cl) }
+						first := succ.Instrs[0]
+						if !isCall(first) && pathAvoiding(first, func(ssa.Instruction) bool { return false }, isCall) == nil {
+							guarded = true
+						}
 					}
 				}
 			})
